@@ -24,7 +24,8 @@ SQRTEPS = float(np.sqrt(np.finfo(float).eps))
 
 
 def gen_weights(rng, nmax):
-    m = int(rng.integers(1, 60)) if rng.random() < 0.8 else int(rng.integers(60, 400))
+    r0 = rng.random()
+    m = int(rng.integers(1, 60)) if r0 < 0.8 else int(rng.integers(60, 400)) if r0 < 0.97 else int(rng.integers(3000, 12000))
     kind = rng.choice(["dirichlet", "zeros", "dominant", "equal", "tempering", "tiny-tail"])
     if kind == "dirichlet":
         w = rng.dirichlet(np.full(m, 10 ** rng.uniform(-1.5, 1.0)))
@@ -63,6 +64,9 @@ def gen_weights(rng, nmax):
 
 def offsets(n, w):
     bps = comb_breakpoints(n, w)
+    if len(bps) > 300:      # very long weight vectors: a strided subset of the breakpoints (incl. the first and last few)
+        idx = sorted(set(list(range(5)) + list(range(len(bps) - 5, len(bps))) + list(np.linspace(0, len(bps) - 1, 200).astype(int))))
+        bps = [bps[i] for i in idx]
     pts = {0.0, ONE_M, 0.5}
     prev = 0.0
     for b in bps:
@@ -103,7 +107,7 @@ def drive_systematic(n, w):
         mids[u0] = idx
     if w.tobytes() != w_in.tobytes():
         bad.append(("input-mutated", "weights modified in place", None))
-    if not bad:
+    if not bad and len(comb_breakpoints(n, w)) <= 300:
         for a, b in zip(cells[:-1], cells[1:]):
             mid = 0.5 * (a + b)
             if mid in mids:
@@ -244,13 +248,13 @@ def posterior_resample(ck):
     for i in range(ck.pick(2, 8)):
         s, t, like, pt = runs.run(dict(target="gauss2", N=32, n_total=128, seed=ck.subseed("post", i),
                                        resample=["mult", "syst"][i % 2]))
-        x0, w0, l0 = s.posterior(trim_importance_weights=False)
         us = [0.0, ONE_M, 0.5]
-        for u0 in us:
+        for u0, trimkw in [(u, kw) for u in us for kw in (dict(trim_importance_weights=False), dict(trim_importance_weights=True, ess_trim=0.9, bins_trim=50))]:
+            x0, w0, l0 = s.posterior(**trimkw)
             with Tap(cap=50) as tap:
                 tap.serve("random", [u0])
                 try:
-                    x, w, l = s.posterior(resample=True, trim_importance_weights=False)
+                    x, w, l = s.posterior(resample=True, **trimkw)
                 except Exception as e:
                     ck.violation(f"posterior-exception-{type(e).__name__}", f"posterior(resample=True) raised {e} at u0={u0!r}", dict(u0=u0))
                     continue
